@@ -184,9 +184,9 @@ def run(ctx: Ctx, tier: str) -> Result:
             appended = norm(apps[0].args[0]) if apps[0].args else ""
             ok = frame_arg == cur and len(adv) == 1 and norm(adv[0].value) == "%s.f_back" % cur and len(inits) == 1 and \
                 ctx.expand.expand(inits[0].value, col) == ["@self._FrameCollector__frame"] and not exits and \
-                isinstance(st_call, ast.Assign) and norm(st_call.targets[0]) == appended and \
+                ((isinstance(st_call, ast.Assign) and norm(st_call.targets[0]) == appended) or (apps[0].args and apps[0].args[0] is calls[0])) and \
                 all(paths.block_position(p, paths.stmt_of(p, x))[0] is lp for x in (calls[0], apps[0], adv[0].value)) and \
-                adv[0].lineno > apps[0].lineno > calls[0].lineno
+                adv[0].lineno > apps[0].lineno >= calls[0].lineno
         rets = [r for r in t.nodes_in(col, ast.Return)]
         ok = ok and len(rets) == 1 and isinstance(rets[0].value, ast.Tuple) and norm(rets[0].value.elts[0]) == norm(apps[0].func.value) \
             and norm(rets[0].value.elts[1]) == col.params[1]
@@ -240,7 +240,29 @@ def run(ctx: Ctx, tier: str) -> Result:
             res.fail(Finding("C02.TYPE", col.qname, calls[0], col.loc(calls[0]), "which frames carry variables is not decided by should_collect_vars(index)"))
     elif calls:
         ia = ctx.expand.expand(t.bind_args(pf, calls[0]).get(pf.params[4]), col)
-        if len(ia) == 1 and "should_collect_vars(len(" in ia[0]:
+        cnt_ok = None
+        inner0 = t.bind_args(pf, calls[0]).get(pf.params[4])
+        if isinstance(inner0, ast.Name) and lp is not None:
+            # a local holding the decision, assigned once in the same loop iteration
+            bs0 = [b for k, b in t.local_bindings(col, inner0.id) if k == "assign"]
+            if len(bs0) == 1 and bs0[0][1] is not None and paths.enclosing_loops(p, bs0[0][1], col) == paths.enclosing_loops(p, calls[0], col):
+                ia = [norm(bs0[0][1])] if "should_collect_vars(" in norm(bs0[0][1]) and "len(" not in norm(bs0[0][1]) else ia
+        if len(ia) == 1 and "should_collect_vars(" in ia[0] and "should_collect_vars(len(" not in ia[0] and lp is not None:
+            # an explicit counter: 0 before the loop, += 1 once per iteration (after its use), nothing else writes it
+            sc_calls = [c_ for c_ in ast.walk(lp) if isinstance(c_, ast.Call) and norm(c_.func).endswith("should_collect_vars") and c_.args and isinstance(c_.args[0], ast.Name)]
+            if len(sc_calls) == 1:
+                cn = sc_calls[0].args[0].id
+                binds_ = t.local_bindings(col, cn)
+                inits_ = [b for k_, b in binds_ if k_ == "assign"]
+                augs_ = [b for k_, b in binds_ if k_ == "aug"]
+                cnt_ok = len(inits_) == 1 and isinstance(inits_[0][1], ast.Constant) and inits_[0][1].value == 0 and not paths.within(p, inits_[0][1], lp) and \
+                    len(augs_) == 1 and isinstance(augs_[0].op, ast.Add) and isinstance(augs_[0].value, ast.Constant) and augs_[0].value.value == 1 and \
+                    paths.block_position(p, augs_[0])[0] is lp and augs_[0].lineno > sc_calls[0].lineno and len(binds_) == 2
+        if cnt_ok:
+            res.ok("C02.TYPE", {"frame index": "explicit counter, 0 for the trigger frame, +1 per frame"})
+        elif cnt_ok is False:
+            res.fail(Finding("C02.TYPE", col.qname, calls[0], col.loc(calls[0]), "the frame index given to should_collect_vars is not a counter that starts at 0 and grows by one per frame"))
+        elif len(ia) == 1 and "should_collect_vars(len(" in ia[0]:
             inner = t.bind_args(pf, calls[0]).get(pf.params[4])
             if isinstance(inner, ast.Name):
                 # a local holding the decision, assigned once in the same loop iteration
@@ -293,7 +315,7 @@ def run(ctx: Ctx, tier: str) -> Result:
     size_ok = parts.get("Size: {}") == ["len(%s)" % VV]
     text_ok = any(x.startswith("str(%s)" % VV) or "safe_str(%s)" % VV in x or "str(%s)" % VV in x for x in outs)
     sized_rows = [r for r in vt.rows if r.result is not None and (fmt_parts(r.result) or ("", []))[0] == "Size: {}"]
-    pin_ok = bool(sized_rows) and all(any(pol and ("%s is dict" % T_) in norm(c) and "['frozenset', 'set', 'list', 'tuple']" in norm(c) for c, pol in r.conds) for r in sized_rows)
+    pin_ok = bool(sized_rows) and all(any(pol and ("%s is dict" % T_) in norm(c) and "'frozenset', 'set', 'list', 'tuple'" in norm(c) for c, pol in r.conds) for r in sized_rows)
     if it_ok and size_ok and text_ok and pin_ok and len(outs) == 3:
         res.ok("C02.VAR", {"rendering": sorted(outs)})
     else:
